@@ -389,7 +389,9 @@ def ob_key(build, ob):
     file therefore does not invalidate results of obligations stated in other files."""
     parts = [build.th, json.dumps(tv(), sort_keys=True),
              json.dumps({k: v for k, v in ob.items() if k not in ("props", "stmt", "fns", "assumes", "tier")}, sort_keys=True)]
-    if ob["backend"] == "verus":
+    if ob["backend"] == "scan":
+        parts.append(_file_hash(os.path.join(VERIF, "lib", "unsafe_map.py")))
+    elif ob["backend"] == "verus":
         for f in (os.path.join(VERUS_DIR, ob["spec"]), os.path.join(VERUS_DIR, "prelude.rs"),
                   os.path.join(VERIF, "lib", "extract.py")):
             parts.append(_file_hash(f))
@@ -592,3 +594,26 @@ def native_typecheck(build):
     env["CARGO_TARGET_DIR"] = os.path.join(build.dir, "target-replay")
     rc, out, dt, to = run_cmd(["cargo", "test", "--offline", "--workspace", "--lib", "--no-run"], build.repo, env, 900)
     return rc, out
+
+
+def run_scan_ob(build, ob):
+    """C19: compare the unsafe sites of the scratch copy (= working tree) with lib/unsafe_map.py"""
+    import unsafe_map
+    t0 = time.time()
+    sites = unsafe_map.scan(build.repo)
+    problems, notes, n = [], [], 0
+    for k, lines in sorted(sites.items()):
+        n += len(lines)
+        if k not in unsafe_map.MAP:
+            problems.append("unmapped unsafe site(s) in %s fn %s at line(s) %s" % (k[0], k[1], lines))
+        elif unsafe_map.MAP[k][0] != len(lines):
+            problems.append("%s fn %s has %d unsafe sites, the map expects %d" % (k[0], k[1], len(lines), unsafe_map.MAP[k][0]))
+        elif not unsafe_map.MAP[k][1]:
+            notes.append("%s fn %s (%d): NOT discharged - %s" % (k[0], k[1], len(lines), unsafe_map.MAP[k][2]))
+    res = {"id": ob["id"], "backend": "scan", "seconds": round(time.time() - t0, 2), "checks": n, "failed": [],
+           "cmd": "lib/unsafe_map.py scan", "undischarged_sites": notes}
+    if problems:
+        res["status"], res["reason"] = "undecided", "; ".join(problems)[:600]
+    else:
+        res["status"] = "discharged"
+    return res
